@@ -107,6 +107,11 @@ def check_conversion(ctx, prog, rule, label, path, src, kind, dst, gargs=None, s
             lits = [('x', 0, fl - 1 - i, False) for i in range(fl)]
             if kind == 'posit':
                 want = expected_posit_bits(dst.bits, dst.es, scale, lits)
+            elif kind == 'px':
+                # generic width: (N, es) left-aligned in 32 bits
+                want = expected_posit_bits(dst[0], dst[1], scale, lits)
+                if want is not None:
+                    want = want + [0] * (32 - dst[0])
             else:
                 want = expected_float_bits(dst, negative, scale, lits)
             cname = '%s k=%d e=%d' % ('-' if negative else '+', k, e)
@@ -120,8 +125,14 @@ def check_conversion(ctx, prog, rule, label, path, src, kind, dst, gargs=None, s
                 continue
             if out.kind != 'return':
                 if out.kind in ('panic', 'budget'):
-                    ctx.finding(rule, label, 'cell=' + cname.replace(' ', ''), 'on regime cell %s the conversion does not return: %s %s at %s' % (cname, out.kind, out.value, out.where),
-                                {'function': path})
+                    site = getattr(out, 'site', None)
+                    if out.kind == 'panic' and site:
+                        ctx.finding('PANIC', site[0], '%s#%d' % (site[1], site[2]),
+                                    '%s at %s: reached on regime cell %s of %s; the operation does not return in an overflow-checked build' % (out.value, out.where, cname, label),
+                                    {'function': path})
+                    else:
+                        ctx.finding(rule, label, 'cell=' + cname.replace(' ', ''), 'on regime cell %s the conversion does not return: %s %s at %s' % (cname, out.kind, out.value, out.where),
+                                    {'function': path})
                 else:
                     ctx.count('routing_cells_undecided')
                 continue
@@ -129,7 +140,7 @@ def check_conversion(ctx, prog, rule, label, path, src, kind, dst, gargs=None, s
             if r is None:
                 ctx.count('routing_cells_undecided')
                 continue
-            if kind == 'posit' and negative:
+            if kind in ('posit', 'px') and negative:
                 if r.negof is None and r.is_const():
                     got = sym_msb_first(AInt.const(r.bits, False, -r.uval()))
                 elif r.negof is None:
@@ -220,3 +231,73 @@ def quire_round_trip(ctx, prog):
         ctx.count('roundtrip_cells_proved_%s' % q.name, proved)
         total += proved
     return total
+
+
+def fraction_subcells(known, fl):
+    """split a regime cell by the position of the leading 1 of its fraction: (known bits extended, remaining symbolic length)"""
+    out = [(list(known) + [0] * fl, 0)]                      # fraction == 0
+    for j in range(fl):
+        out.append((list(known) + [0] * j + [1], fl - j - 1))
+    return out
+
+
+def float_round_trip(ctx, prog, pty, fname, to=None, fr=None, label=None):
+    """P::from_X(p.to_X()) == p for every bit pattern, by routing on regime cells (cells that stay undecided are split by leading fraction bit)"""
+    to = to or prog.inherent(pty.tykey, 'to_' + fname)
+    fr = fr or prog.inherent(pty.tykey, 'from_' + fname)
+    if not to or not fr:
+        ctx.finding('ANCHOR', '%s::to/from_%s' % (pty.name, fname), 'missing', 'conversion functions not found')
+        return 0, 0
+    I = Interp(prog, max_steps=100000)
+    cells = proved = 0
+    label = label or '%s::from_%s(to_%s)' % (pty.name, fname, fname)
+
+    def attempt(known, fl, negative):
+        arg, y = posit_cell_arg(pty, known, fl, negative)
+        o1 = I.run(to, [arg])
+        if o1.kind != 'return':
+            return 'undecided', None
+        o2 = I.run(fr, [o1.value])
+        if o2.kind in ('panic', 'budget'):
+            return 'panic', '%s %s at %s' % (o2.kind, o2.value, o2.where)
+        if o2.kind != 'return':
+            return 'undecided', None
+        r = result_int(o2.value)
+        if r is None:
+            return 'undecided', None
+        want = sym_msb_first(y)
+        if negative:
+            if r.negof is None and r.is_const():
+                got = sym_msb_first(AInt.const(r.bits, False, -r.uval()))
+            elif r.negof is None:
+                return 'undecided', None
+            else:
+                got = sym_msb_first(r.negof)
+        else:
+            got = sym_msb_first(r)
+        if any(b is None for b in got):
+            return 'undecided', None
+        return ('ok', None) if got == want else ('diff', (got, want))
+    for negative in (False, True):
+        for k, e, fl, known in regime_cells(pty.bits, pty.es):
+            work = [(known, fl, True)]
+            while work:
+                kn, f, top = work.pop()
+                cells += 1
+                cname = '%s k=%d e=%d%s' % ('-' if negative else '+', k, e, '' if top else ' sub=%d' % f)
+                st, info = attempt(kn, f, negative)
+                if st == 'ok':
+                    proved += 1
+                elif st == 'undecided' and top and f > 0:
+                    cells -= 1
+                    work += [(a, b, False) for a, b in fraction_subcells(kn, f)]
+                elif st == 'undecided':
+                    ctx.count('routing_cells_undecided')
+                elif st == 'panic':
+                    ctx.finding('R7-roundtrip', label, 'cell=' + cname.replace(' ', ''), 'round trip does not return on regime cell %s: %s' % (cname, info))
+                else:
+                    ctx.finding('R7-roundtrip', label, 'cell=' + cname.replace(' ', ''), 'posit -> %s -> posit is not the identity on regime cell %s' % (fname, cname),
+                                {'got': str(info[0]), 'want': str(info[1])})
+    ctx.count('roundtrip_cells', cells)
+    ctx.count('roundtrip_cells_proved', proved)
+    return cells, proved
